@@ -241,6 +241,11 @@ NEG = [
     ("padded-array comparison ignores the length", "Order.tla", ("ELSE IF Len(A.a) # Len(B.a) THEN Sign(Len(A.a) - Len(B.a))", "ELSE IF FALSE THEN 0"), "MCOrder.tla", "MCOrder.cfg"),
     ("reader loop feeds one byte too many", "MCStream.tla", ("/\\ fed' = fed + got ", "/\\ fed' = fed + got + (IF got = BUF THEN 1 ELSE 0) "), "MCStream.tla", "MCStream.cfg"),
     ("incremental rolling hash forgets to subtract the outgoing byte", "Hashes.tla", ("h1a == WSub(WAdd(s.h1, WOf(c)), WOf(s.win[s.idx + 1]))", "h1a == WAdd(s.h1, WOf(c))"), "MCHashes.tla", "MCHashes_scaled.cfg"),
+    ("dual parser without the raw length accounting (finding F1)", "ParserMachine.tla", ("IF kind.dual /\\ Len(r2.out) + r2.extra > cap2 THEN", "IF FALSE THEN"), "MCParser.tla", "MCParser_quick.cfg"),
+    ("capacity check before run collapsing (seed C04)", "ParserMachine.tla", ("IF normalize /\\ curr = st.prev /\\ st.seq + 1 >= MAXRUN\n", "IF normalize /\\ curr = st.prev /\\ st.seq + 1 >= MAXRUN /\\ (strict \\/ Len(st.out) < n)\n"), "MCParser.tla", "MCParser_quick.cfg"),
+    ("into_mut_long_form without clearing the second half", "Objects.tla", ("ELSE 0],                     \\* blockhash2[HALF..FULL].fill(0)", "ELSE dst.arr[i]],"), "MCObjects.tla", "MCObjects.cfg"),
+    ("dual compression leaves stale RLE symbols (seeds C07 / C11 / C15)", "Objects.tla", ("ELSE 0]]                          \\* rle_block_out[rle_offset..].fill(TERMINATOR)", "ELSE IF i = Len(c.rle) + 1 THEN 0 ELSE dst.rle[i]]]"), "MCObjects.tla", "MCObjects.cfg"),
+    ("in-place normalisation without clearing the freed tail", "Objects.tla", ("IF x > len /\\ x <= old THEN 0 ELSE arr[x]]", "arr[x]]"), "MCObjects.tla", "MCObjects.cfg"),
     ("formatter forgets the second colon (round trip)", "Text.tla", ("\\o Enc(h.a) \\o <<COLON>> \\o Enc(h.b)", "\\o Enc(h.a) \\o Enc(h.b)"), "MCText.tla", "MCText.cfg"),
 ]
 
